@@ -374,30 +374,30 @@ def _simulate_fill(ctx, words, limit_value=None):
             if i:
                 fr.append(Obj(frag, {'text': ' ', 'wordwrap': True}))
             fr.append(Obj(frag, {'text': w, 'wordwrap': True}))
+        T.LEN_AFFINE[0] = True
         try:
-            g = it.call(it.getattr(cfg.cls, 'fragments_to_lines'), [fr], {'max_line_length': AbsInt('limit')})
+            g = it.call(it.getattr(cfg.cls, 'fragments_to_lines'), [fr], {'max_line_length': Aff.sym('limit')})
         except Raised as e:
             return ('raise', e.exc.kind)
+        finally:
+            T.LEN_AFFINE[0] = False
         return ('ok', g.items if isinstance(g, GenVal) else g)
     return enumerate_paths(run_, 2000)
 
 
 def _fits_decided(trace, labels):
-    """Was  len(<text made of exactly these words>) <= limit  (or < limit) decided to hold on this path?"""
-    want = ('int', ('len(skel)', tuple(sorted(labels))))
+    """Was  (sum of the lengths of exactly these words) + (one space between neighbours) <= limit  decided to hold
+    on this path? The fit test may be written on the concatenation or on the lengths (len(a) + 1 + len(b)), with
+    <= or < and either way round: all of them are one canonical affine constraint."""
+    from ..affine import canonical_ge0
+    total = Aff.sym('limit')
+    for l in labels:
+        total = total.add(Aff.sym('len(%s)' % l), -1)
+    total = total.add(Aff({}, len(labels) - 1), -1)         # limit - sum(len) - (k - 1)  >=  0
+    key, flip = canonical_ge0(total)
     for k, v in trace:
-        if not (isinstance(k, tuple) and len(k) == 5 and k[0] == 'intcmp'):
-            continue
-        _, op, a, b, reflected = k
-        if a == want and b == ('int', 'limit'):
-            pass
-        elif b == want and a == ('int', 'limit'):
-            reflected = not reflected
-        else:
-            continue
-        if reflected:
-            op = {'Lt': 'Gt', 'LtE': 'GtE', 'Gt': 'Lt', 'GtE': 'LtE'}.get(op, op)
-        if (op in ('LtE', 'Lt') and v is True) or (op in ('Gt', 'GtE') and v is False):
+        kk = k[1] if isinstance(k, tuple) and len(k) == 2 and k[0] == 'cond' else k
+        if kk == key and v is (not flip):
             return True
     return False
 
@@ -481,9 +481,12 @@ def rule_sentinel(ctx, rep):
     for trace, (kind, lines) in _simulate_fill(ctx, 'AB'):
         paths += 1
         for k, v in trace:
-            if isinstance(k, tuple) and len(k) == 2 and k[0] == 'cond' and isinstance(k[1], tuple) and k[1] and k[1][0] == 'nonzero' \
-                    and 'limit' in repr(k[1]):
-                bad.add(repr(k[1][1]))
+            kk = k[1] if isinstance(k, tuple) and len(k) == 2 and k[0] == 'cond' else k
+            # a truthiness test of an affine value is the decision  value == 0
+            if isinstance(kk, tuple) and len(kk) == 3 and kk[0] == 'aff' and kk[1] == 'eq' and 'limit' in kk[2]:
+                bad.add(kk[2])
+            if isinstance(kk, tuple) and kk and kk[0] == 'nonzero' and 'limit' in repr(kk):
+                bad.add(repr(kk[1]))
     n += 1
     rep.obligation('R-SENTINEL', not bad, {'method': f2l.short, 'paths': paths, 'truthiness tests on the limit': sorted(bad)})
     for t in sorted(bad):
